@@ -91,13 +91,18 @@ def harness_tier(ctx):
     compiled with gfortran together with kernel and adjoint, and run."""
     from psyclone.psyad.tl2ad import generate_adjoint_str
     kernels = [
-        (["a", "b", "c"], ["do i = 1, n", "  a(i) = 2.0*b(i) + 3.0*c(i)", "end do"]),
-        (["a", "b"], ["do i = 2, n - 1", "  a(i) = a(i) + 0.5*b(i + 1) - b(i - 1)", "end do"]),
-        (["a", "b", "c"], ["do i = 1, n, 2", "  a(i) = a(i) + b(i)*c0(i)", "  c(i) = 2.0*a(i)", "end do"]),
-        (["a", "b"], ["do i = n, 2, -1", "  b(i - 1) = b(i - 1) + a(i)", "  a(i) = 0.0", "end do"]),
+        (["a", "b", "c"], ["do i = 1, n", "  a(i) = 2.0*b(i) + 3.0*c(i)", "end do"], None),
+        (["a", "b"], ["do i = 2, n - 1", "  a(i) = a(i) + 0.5*b(i + 1) - b(i - 1)", "end do"], None),
+        (["a", "b", "c"], ["do i = 1, n, 2", "  a(i) = a(i) + b(i)*c0(i)", "  c(i) = 2.0*a(i)", "end do"], None),
+        (["a", "b"], ["do i = n, 2, -1", "  b(i - 1) = b(i - 1) + a(i)", "  a(i) = 0.0", "end do"], None),
+        (["a", "b"], ["if (n > 3) then", "  do i = n - 1, 1, -3", "    a(i) = 3.0*a(i) + c0(i)*b(i + 1)", "  end do",
+                      "else", "  b(1) = b(1) + a(1)", "end if"], None),
+        # the known parenthesisation defect, seen through the compiler: lower bound 2 + 1, step 3, n = 20
+        (["a", "b"], ["do i = 2 + 1, n, 3", "  a(i) = a(i) + 2.0*b(i)", "end do"],
+         "loop_node/mod-lower-bound-unparenthesised"),
     ]
     res = []
-    for idx, (acts, body) in enumerate(kernels):
+    for idx, (acts, body, key) in enumerate(kernels):
         src = ("module tl_mod\ncontains\nsubroutine kern(a, b, c, c0, n)\n  integer, intent(in) :: n\n"
                "  real, intent(inout) :: a(n), b(n), c(n)\n  real, intent(in) :: c0(n)\n  integer :: i\n"
                + "\n".join("  " + x for x in body) + "\nend subroutine kern\nend module tl_mod\n")
@@ -112,12 +117,17 @@ def harness_tier(ctx):
         (d / "ad.f90").write_text(ad)
         (d / "test.f90").write_text(test)
         rc, out = core.sh("gfortran -O0 -fcheck=all tl.f90 ad.f90 test.f90 -o t.x && ./t.x", cwd=d, timeout=300)
-        ok = rc == 0 and "passed" in out.lower()
-        res.append({"kernel": body, "status": "passed" if ok else "FAILED", "rc": rc, "out": out[-300:]})
-        if not ok and "failed" in out.lower():
-            ctx.violation({"property": "C19", "kind": "generated test harness reports failure",
-                           "kernel": src, "adjoint": ad, "harness_output": out[-1000:],
-                           "replay": "generate_adjoint_str(kernel, %r, create_test=True); gfortran tl ad test; run" % acts})
+        low = out.lower()
+        status = "passed" if (rc == 0 and "passed" in low) else "FAILED" if "failed" in low else "not-run"
+        res.append({"kernel": body, "status": status, "rc": rc, "out": out[-300:]})
+        if status == "FAILED":
+            replay = {"property": "C19", "kind": "PSyAD's generated test harness (gfortran) reports failure",
+                      "kernel": src, "adjoint": ad, "harness_output": out[-1000:],
+                      "replay": "generate_adjoint_str(kernel, %r, create_test=True); gfortran tl ad test; run" % acts}
+            if key:
+                ctx.finding(key, "", replay)
+            else:
+                ctx.violation(replay)
     ctx.notes["gfortran_harness"] = res
     ctx.log("gfortran harness: " + ", ".join(x["status"] for x in res))
 
@@ -166,16 +176,17 @@ def run(ctx):
     g = L.Gen(rng)
     gdeep = L.Gen(rng, deep=True)
     cases = [(a, l, "targeted") for a, l in L.TARGETED]
-    nvalid = ctx.pick(110, 1500)
+    nvalid = ctx.pick(60, 1500)
     for k in range(nvalid):
         a, l = (gdeep if k % 5 == 4 else g).kernel()
         cases.append((a, l, "valid"))
-    for _ in range(ctx.pick(15, 150)):
+    for _ in range(ctx.pick(10, 150)):
         a, l = g.kernel(invalid=True)
         cases.append((a, l, "invalid"))
     nstores = ctx.pick(5, 8)
     corr, failures, nrej, nacc, nev = [], [], 0, 0, 0
-    budget = ctx.pick(75, 900)
+    budget = ctx.pick(20, 600)
+    t0 = time.time()
     for idx, (acts, lines, kind) in enumerate(cases):
         if time.time() - t0 > budget and kind != "targeted":
             ctx.notes["stopped_early_at_case"] = idx
